@@ -4,6 +4,7 @@ package query
 //verif:pkg lib/query
 //verif:harness VerifC06IntegerRange mode=bv tier=quick
 //verif:harness VerifC06IntegerLiterals mode=bv tier=quick
+//verif:harness VerifC06DatetimeOfNumber mode=bv tier=quick
 
 import "github.com/mithrandie/csvq/lib/value"
 
@@ -63,5 +64,35 @@ func VerifC06IntegerLiterals() {
 	i3, ok3 := rec[3][0].(*value.Integer)
 	verifAssert("the negated literal", ok3 && i3.Raw() == -n)
 	verifObserve("literal", n)
+	verifReach("end")
+}
+
+// DATETIME(number): the number counts seconds from the epoch, also when it is negative and has a
+// fraction: for n in 0..3 and a fraction from {0, .25, .5} with either sign the result is exactly that
+// many nanoseconds from the epoch.
+func VerifC06DatetimeOfNumber() {
+	n := int64(verifChoice("seconds", 4))
+	fr := []int64{0, 250000000, 500000000}[verifChoice("fraction", 3)]
+	neg := verifChoice("negative", 2) == 1
+	nanos := n*1000000000 + fr
+	f := float64(n) + float64(fr)/1e9
+	if neg {
+		nanos, f = -nanos, -f
+	}
+	tx := verifNewTx()
+	scope := NewReferenceScope(tx)
+	verifVar(scope, "f", value.NewFloat(f))
+	q := verifParseSelect("select datetime(@f)")
+	view, err := Select(verifCtx(), scope, q)
+	verifAssert("the query runs", err == nil && view.RecordLen() == 1)
+	if err != nil || view.RecordLen() != 1 {
+		return
+	}
+	d, ok := view.RecordSet[0][0][0].(*value.Datetime)
+	verifAssert("a datetime", ok)
+	if ok {
+		verifAssert("exactly that many nanoseconds from the epoch", d.Raw().UnixNano() == nanos)
+	}
+	verifObserve("nanos", nanos)
 	verifReach("end")
 }
